@@ -38,6 +38,22 @@ def corpus(tier, seed, names, salt="pipe"):
     bs = [tts.index(x) for x in ("StartExpression", "EndExpression", "Number", "Subexpression")]
     streams.append(("braces_separators", ["T " + " ".join(map(str, t)) for L in (range(4, 9) if tier == "thorough" else range(4, 8))
                                           for t in itertools.product(bs, repeat=L)]))
+    # items separated by blank-line separators, where an item is a value, a group, a nested expression or a
+    # side-effect block followed by one of those (the shapes whose nodes the parser may leave unlinked)
+    ix = lambda *names_: [tts.index(x) for x in names_]
+    SO, SC, GO, GC, EO, EC, NUM, SUB, NEG = ix("StartSideEffect", "EndSideEffect", "StartGroup", "EndGroup", "StartExpression",
+                                              "EndExpression", "Number", "Subexpression", "Opposite")
+    items = [[NUM], [GO, NUM, GC], [EO, NUM, EC], [EO, EC], [SO, NUM, SC], [SO, NUM, SC, NUM], [SO, NUM, SC, GO, NUM, GC],
+             [SO, NUM, SC, EO, NUM, EC], [SO, NUM, SC, EO, EC], [SO, NUM, SC, NEG, NUM], [NUM, SO, NUM, SC], [NUM, SO, NUM, SC, GO, NUM, GC],
+             [SO, SC], [NEG, NUM]]
+    sep_items = []
+    for n_ in (1, 2, 3):
+        for combo in itertools.product(items, repeat=n_):
+            seq = []
+            for j, it in enumerate(combo):
+                seq += ([SUB] if j else []) + it
+            sep_items.append("T " + " ".join(map(str, seq)))
+    streams.append(("separated_items", sep_items))
     k = 300000 if tier == "thorough" else 40000
     streams.append(("rep_soup_5_9", ["T " + " ".join(str(rng.choice(rep)) for _ in range(rng.randint(5, 9))) for _ in range(k)]))
     progs = [gen_programs.program(rng, 4) for _ in range(100000 if tier == "thorough" else 15000)]
